@@ -59,8 +59,9 @@ const (
 )
 
 var (
-	c20ConfID = strings.Repeat("c2", 31) + "01"
-	c20CsvID  = strings.Repeat("c2", 31) + "02"
+	c20ConfID  = strings.Repeat("c2", 31) + "01"
+	c20CsvID   = strings.Repeat("c2", 31) + "02"
+	c20ConfID2 = strings.Repeat("c2", 31) + "03"
 )
 
 type c20Fam struct {
@@ -71,6 +72,7 @@ type c20Fam struct {
 	Kind    string // conf | csv
 	Early   bool   // the transaction was confirmed before startingHeight
 	Race    bool   // chain changes in the middle of the watcher's RPC sequence
+	Multi   bool   // three watches at once on the same transaction: confirmation, CSV, a second confirmation (in that order)
 	TxIndex bool   // lnd only: the notifier finds a confirmation below the height hint (lnd on a txindex-enabled bitcoind looks the transaction up by id)
 	Depth   int
 	Window  uint32
@@ -106,6 +108,10 @@ func c20Families(tier string) []c20Fam {
 	for _, kind := range []string{"conf", "csv"} {
 		out = append(out, c20Fam{Name: "lnd-btc/" + kind + "/early/txindex", Watcher: "lnd", Chain: "btc", Confs: 3, Kind: kind, Early: true, TxIndex: true, Depth: d, Window: 504, Csv: 1008})
 	}
+	// several registrations at once (the subscriber / observer lists are walked while entries leave them)
+	out = append(out, c20Fam{Name: "electrum-lbtc/conf/multi", Watcher: "electrum", Chain: "lbtc", Confs: 2, Kind: "conf", Multi: true, Depth: d, Window: c20Window, Csv: c20Csv})
+	// (no rpc multi family: its observers are independent goroutines that share the injected faults, so which of them
+	// meets the k-th failing call depends on the Go scheduler - not explorable by replay)
 	// mid-call chain changes (RPC watcher only; see c20View.after)
 	out = append(out, c20Fam{Name: "rpc-btc/conf/race", Watcher: "rpc", Chain: "btc", Confs: 3, Kind: "conf", Race: true, Depth: d - 1, Window: c20Window, Csv: c20Csv})
 	out = append(out, c20Fam{Name: "rpc-lbtc/conf/race", Watcher: "rpc", Chain: "lbtc", Confs: 2, Kind: "conf", Race: true, Depth: d - 1, Window: c20Window, Csv: c20Csv})
@@ -192,6 +198,7 @@ type c20Exec struct {
 	reports    []c20Report
 	viols      []mc.Violation
 	flags      map[string]bool // informational classes seen in this execution
+	extra      map[string]int  // multi families: reports per additional registration
 	closed     bool
 	ev         int
 	evName     string
@@ -295,16 +302,35 @@ func (x *c20Exec) judged(r c20Report, good func(c20Truth) bool) c20Truth {
 	return r.At
 }
 
+// c20SlowCallback (only as a sub-check of C18): the swap's handler of a watcher callback takes a while
+// (it pays an invoice, broadcasts a transaction ...), so further blocks arrive while it runs.
+func c20SlowCallback() {
+	if os.Getenv("VERIF_C20_SLOWCB") != "" {
+		time.Sleep(2500 * time.Millisecond)
+	}
+}
+
 func (x *c20Exec) onConf(swapID, txHex string, err error) error {
 	if x.closed {
 		return nil
 	}
+	defer c20SlowCallback()
 	r := c20Report{Kind: "conf", OK: err == nil, At: x.truth(), Read: x.lastRead, RawOK: txHex == x.txHex, Ev: x.ev}
 	if err != nil {
 		r.Err = err.Error()
 	}
 	if x.f.Watcher != "rpc" {
 		r.Read = r.At
+	}
+	if x.f.Multi && swapID == c20ConfID2 && x.regd {
+		// the second confirmation watch of the multi families: exactly one report, judged like the first
+		x.extra[swapID]++
+		if x.extra[swapID] > 1 {
+			x.add("reported_twice:second_confirmation_watch", x.describe(r))
+		} else if t := x.truth(); r.OK && (!t.Exists || t.Height == 0 || uint32(t.depth()) < x.R) && !x.f.Race {
+			x.add("confirmed_too_early:second_confirmation_watch", x.describe(r))
+		}
+		return nil
 	}
 	if swapID != c20ConfID || x.f.Kind != "conf" || !x.regd {
 		x.add("confirmation_callback_without_registration", x.describe(r))
@@ -390,12 +416,22 @@ func c20ErrClass(s string) string {
 }
 
 func (x *c20Exec) onCsv(swapID string) error {
+	defer c20SlowCallback()
 	if x.closed {
 		return nil
 	}
 	r := c20Report{Kind: "csv", OK: true, At: x.truth(), Read: x.lastRead, Ev: x.ev}
 	if x.f.Watcher != "rpc" {
 		r.Read = r.At
+	}
+	if x.f.Multi && swapID == c20CsvID && x.regd {
+		x.extra[swapID]++
+		if x.extra[swapID] > 1 {
+			x.add("csv_reported_twice:multi", x.describe(r))
+		} else if t := x.truth(); !t.Exists || t.Height == 0 || uint32(t.depth()) < x.CSV {
+			x.add("csv_reported_too_early:multi", x.describe(r))
+		}
+		return nil
 	}
 	if x.f.Kind == "conf" && swapID == c20ConfID && x.regd {
 		// the registration asked for the confirmation of the opening
@@ -467,7 +503,7 @@ func c20MakeTxs() (txHex, txid string, script []byte, spendHex, spendID string) 
 
 func c20NewExec(f *c20Fam) *c20Exec {
 	vsync.Reset()
-	x := &c20Exec{f: f, flags: map[string]bool{}}
+	x := &c20Exec{f: f, flags: map[string]bool{}, extra: map[string]int{}}
 	x.w = world.New()
 	x.c = x.w.Chain(f.Chain)
 	x.base = x.c.Tip()
@@ -625,6 +661,8 @@ func (x *c20Exec) jumpBlocks(arg string) int {
 		return int64(d) - int64(t.depth())
 	}
 	switch arg {
+	case "win-2":
+		target = int64(x.S+x.W-2) - int64(t.Tip)
 	case "win-1":
 		target = int64(x.S+x.W-1) - int64(t.Tip)
 	case "win":
@@ -679,6 +717,10 @@ func (x *c20Exec) enabled() []mc.Event {
 	var jumps []string
 	if x.f.Kind == "conf" {
 		jumps = []string{"win-1", "win"}
+		if x.f.Race {
+			// two blocks short of the deadline: a mid-call change can then put the tx INTO the deadline block
+			jumps = append(jumps, "win-2")
+		}
 		if x.f.Watcher == "lnd" {
 			jumps = append(jumps, "half-1", "half")
 		}
@@ -775,8 +817,8 @@ func (x *c20Exec) key() string {
 	// the number of reorganisations is not part of the key: it only shows in
 	// the block hashes, which the watchers compare with each other and with
 	// the poller's last one (hashIsTip in the RPC adapter's part of the key)
-	return fmt.Sprintf("%s|tip+%d|tx=%s spent=%v spender=%s|%s stale=%v races=%v|reg=%v reports=%v|%s|v=%v",
-		x.f.Name, t.Tip-x.base, st(t.Exists, t.Height), t.Spent, sps, x.w.FaultKey(), fmt.Sprint(x.c.StaleOnce, x.stalePrev), rc, x.regd, rs, x.wa.obsKey(), vk)
+	return fmt.Sprintf("%s|tip+%d|tx=%s spent=%v spender=%s|%s stale=%v races=%v|reg=%v reports=%v extra=%d/%d|%s|v=%v",
+		x.f.Name, t.Tip-x.base, st(t.Exists, t.Height), t.Spent, sps, x.w.FaultKey(), fmt.Sprint(x.c.StaleOnce, x.stalePrev), rc, x.regd, rs, x.extra[c20CsvID], x.extra[c20ConfID2], x.wa.obsKey(), vk)
 }
 
 func (x *c20Exec) outcome() string {
@@ -839,6 +881,15 @@ func c20Runner(t *testing.T, f *c20Fam) mc.Runner {
 				if os.Getenv("VERIF_C20_DRAIN") != "" {
 					x.drainCsv()
 				}
+				if os.Getenv("VERIF_C20_SLOWCB") != "" {
+					// long after the last event every callback has returned: whoever still waits for a
+					// lock of the watcher waits for a holder that is itself blocked for good
+					time.Sleep(8 * time.Second)
+					synctest.Wait()
+					if ws := vsync.Waiters(); len(ws) > 0 {
+						x.add("goroutine_waits_for_watcher_lock_forever:"+c20LockSite(ws), strings.Join(ws, "\n---\n"))
+					}
+				}
 				res.Violations = x.viols
 				res.Internal = x.internal
 				x.finish()
@@ -897,6 +948,10 @@ func (v *c20View) after(method string) {
 		case "block2":
 			x.c.Mine(1, true)
 			x.c.Mine(1, false)
+		case "block2b":
+			// two blocks, the pending transactions go into the FIRST of them
+			x.c.Mine(1, false)
+			x.c.Mine(1, true)
 		case "reorg1drop":
 			x.reorgs++
 			x.c.Reorg(1, true)
@@ -985,6 +1040,10 @@ func (a *c20RPC) reg(kind string) {
 		defer close(done)
 		if kind == "conf" {
 			a.tw.AddWaitForConfirmationTx(c20ConfID, x.txid, 0, x.S, x.W, nil)
+			if x.f.Multi {
+				a.tw.AddWaitForCsvTx(c20CsvID, x.txid, 0, x.S, x.CSV, nil)
+				a.tw.AddWaitForConfirmationTx(c20ConfID2, x.txid, 0, x.S, x.W, nil)
+			}
 		} else {
 			a.tw.AddWaitForCsvTx(c20CsvID, x.txid, 0, x.S, x.CSV, nil)
 		}
@@ -1042,7 +1101,7 @@ func (a *c20RPC) faults() []mc.Event {
 		var out []mc.Event
 		// k-th next call: the poller calls getblockcount/getblockhash first,
 		// the observer calls them again inside IsTxInMempoolOrRange
-		for _, act := range []string{"block", "block2", "reorg1drop", "reorg1keep", "reorg2drop", "reorg2keep"} {
+		for _, act := range []string{"block", "block2", "block2b", "reorg1drop", "reorg1keep", "reorg2drop", "reorg2keep"} {
 			if strings.HasPrefix(act, "reorg2") && x.c.Tip() < x.base+2 {
 				continue
 			}
@@ -1220,6 +1279,10 @@ func (a *c20El) reg(kind string) {
 	x := a.x
 	if kind == "conf" {
 		a.tw.AddWaitForConfirmationTx(c20ConfID, x.txid, 0, x.S, x.W, x.script)
+		if x.f.Multi {
+			a.tw.AddWaitForCsvTx(c20CsvID, x.txid, 0, x.S, x.CSV, x.script)
+			a.tw.AddWaitForConfirmationTx(c20ConfID2, x.txid, 0, x.S, x.W, x.script)
+		}
 	} else {
 		a.tw.AddWaitForCsvTx(c20CsvID, x.txid, 0, x.S, x.CSV, x.script)
 	}
@@ -1721,7 +1784,7 @@ func TestC20(t *testing.T) {
 	}
 	rep.Rule = "breadth-first search by replay, with state deduplication on a canonical key (tip relative to base, status/depth of the watched tx and of its spender, number of reorgs, pending RPC faults / stale answer / armed mid-call change, registration made, callbacks delivered, what the watcher has been told so far), of ALL histories up to the depth bound over the event alphabet, one family per watcher x chain x {confirmation, csv registration} x {tx appears after startingHeight, tx confirmed before startingHeight}; registration is itself an event, so every registration time (before the tx exists, in mempool, confirmed, deep, after the window closed) is covered. Every execution runs the REAL watcher (txwatcher.BlockchainRpcTxWatcher with both polling loops under virtual time / lwk electrumTxWatcher + electrum observers / lnd.TxWatcher) on a fresh simulated chain in its own synctest bubble. Oracle = property statement evaluated on the chain's ground truth recorded inside each callback: success => tx in best chain, depth >= required, tip < start+window, raw tx is the tx; csv => depth >= csv; at most one report per registration; a new tip >= start+window announced with no fault pending while the registration is open must produce a (failure) callback. Race families: the chain moves right after a chosen RPC answer; reports are then judged against the chain as of the watcher's last read (a later change cannot be noticed by any watcher and is only counted). Liveness (a true confirmation is eventually reported) is not part of C20 and only counted (info_* classes)."
 	rep.Alphabets = map[string]any{
-		"events":        []string{"reg", "submit", "spend", "block", "block(empty)", "reorg(keep|drop,1|2)", "jump(win-1|win|csv-1|csv; lnd: half-1|half|d143|d144)", "fault(<method>,k-th next call)", "stale (gettxout answers once with the previous best block hash)", "stale(prev) (gettxout answers once as of before the last chain event)", "wait (rpc: 1 s)", "notify (duplicate announcement of the tip: electrum, lnd)", "resub (electrum: 37 s re-subscription)", "race(<method>#k><block|block2|reorg1drop|reorg1keep>) (race families)"},
+		"events":        []string{"reg", "submit", "spend", "block", "block(empty)", "reorg(keep|drop,1|2)", "jump(win-1|win|csv-1|csv; lnd: half-1|half|d143|d144)", "fault(<method>,k-th next call)", "stale (gettxout answers once with the previous best block hash)", "stale(prev) (gettxout answers once as of before the last chain event)", "wait (rpc: 1 s)", "notify (duplicate announcement of the tip: electrum, lnd)", "resub (electrum: 37 s re-subscription)", "race(<method>#k><block|block2|block2b|reorg1drop|reorg1keep|reorg2drop|reorg2keep>) (race families; block2 / block2b: two blocks with the pending transactions in the second / the first)"},
 		"rpc_faults":    []string{"getblockcount#0,#1", "getblockhash#0,#1,#2", "gettxout#0", "getrawtransaction#0"},
 		"electrum":      []string{"gethistory", "getrawtransaction"},
 		"lnd":           []string{"getinfo"},
@@ -1791,4 +1854,28 @@ func c20Replay(t *testing.T, path string) {
 	if found != 5 {
 		t.Fatalf("violation did not reproduce on every replay")
 	}
+}
+
+// c20LockSite names the functions of the watcher package in which the blocked goroutines wait.
+func c20LockSite(stacks []string) string {
+	seen := map[string]bool{}
+	var fns []string
+	for _, st := range stacks {
+		for _, ln := range strings.Split(st, "\n") {
+			ln = strings.TrimSpace(ln)
+			if i := strings.Index(ln, "("); i > 0 && (strings.Contains(ln, "/txwatcher.") || strings.Contains(ln, "/lnd.") || strings.Contains(ln, "/electrum.") || strings.Contains(ln, "/lwk.")) {
+				fn := ln[:strings.LastIndex(ln, "(")]
+				if j := strings.LastIndex(fn, "/"); j >= 0 {
+					fn = fn[j+1:]
+				}
+				if !seen[fn] {
+					seen[fn] = true
+					fns = append(fns, fn)
+				}
+				break
+			}
+		}
+	}
+	sort.Strings(fns)
+	return strings.Join(fns, "+")
 }
